@@ -35,7 +35,12 @@ func frameTemplates(tier string) []map[string]int {
 	add(70, 3, 5, 1, 1, 0, 0, 0, 2, 30) // two compressed blocks
 	if tier == "thorough" {
 		for i := 0; i < 12; i++ {
-			add([]int{3, 9, 24, 64}[r.next(4)], r.next(3), 4+r.next(4), r.next(2), r.next(2), r.next(2), r.next(2), 0, r.next(5), 1+r.next(8))
+			n := []int{3, 9, 24, 64}[r.next(4)]
+			period := r.next(3)
+			if n > 12 && period == 0 {
+				period = 1 + r.next(2) // arbitrary content only for short inputs (path explosion in the compressors)
+			}
+			add(n, period, 4+r.next(4), r.next(2), r.next(2), r.next(2), r.next(2), 0, r.next(5), 1+r.next(8))
 		}
 	}
 	return out
